@@ -42,10 +42,9 @@ def atom_ids(rules):
     return {n: i for i, n in enumerate(order)}
 
 
-def model_line(rules, ids):
-    toks = [str(len(rules))]
-    for r in rules:
-        part = {'initial': 'I', 'base': 'I', 'always': 'A', 'dynamic': 'D', 'final': 'F'}[r['part']]
+def rule_tokens(r, ids):
+    """head and body of a rule in the token language of the driver (without its part)"""
+    if True:
         h = r['head']
         if h[0] == 'norm':
             hd = 'n %d %d' % (ids[h[1]], h[2])
@@ -67,8 +66,56 @@ def model_line(rules, ids):
                 body.append('%s tl' % s)
             else:
                 body.append('%s %s' % (s, 'kI' if b[1] == 'initial' else 'kF'))
-        toks.append('%s %s %d %s' % (part, hd, len(body), ' '.join(body)))
+        return '%s %d %s' % (hd, len(body), ' '.join(body))
+
+
+def model_line(rules, ids):
+    toks = [str(len(rules))]
+    for r in rules:
+        toks.append('%s %s' % ({'initial': 'I', 'base': 'I', 'always': 'A', 'dynamic': 'D', 'final': 'F'}[r['part']], rule_tokens(r, ids)))
     return 'ftr ' + ' '.join(toks)
+
+
+# ---- layouts: the statements of a program with ARBITRARY #program directives between them, cut into several input texts ----
+def layout_texts(layout):
+    return ['\n'.join(('#program %s.' % x[1]) if x[0] == 'P' else lang.rule_txt(x[1]) for x in inp) + '\n' for inp in layout]
+
+
+def layout_line(layout, ids):
+    toks = [str(len(layout))]
+    for inp in layout:
+        toks.append(str(len(inp)))
+        for x in inp:
+            toks.append('P %s' % x[1] if x[0] == 'P' else 'R ' + rule_tokens(x[1], ids))
+    return 'ftri ' + ' '.join(toks)
+
+
+def random_layout(rng, rules):
+    """the rules in order, a directive in front of some of them (any of the five part names), cut at random places into 1-3 texts (a text may
+    begin without a directive, may be empty, may end in any part)"""
+    items = []
+    for r in rules:
+        if rng.random() < 0.45:
+            items.append(('P', rng.choice(['base', 'initial', 'always', 'dynamic', 'final'])))
+        items.append(('R', r))
+    if rng.random() < 0.3:
+        items.append(('P', rng.choice(['always', 'final', 'dynamic'])))
+    k = rng.choice([1, 2, 2, 3])
+    cuts = sorted(rng.randint(0, len(items)) for _ in range(k - 1))
+    out, last = [], 0
+    for c in cuts + [len(items)]:
+        out.append(items[last:c])
+        last = c
+    return out
+
+
+def compare_layouts(ctx, progs, seed_rng):
+    prepared = []
+    for p in progs:
+        ids = atom_ids(p)
+        lay = random_layout(seed_rng, p)
+        prepared.append((layout_texts(lay), layout_line(lay, ids), ids))
+    return compare_prepared(ctx, prepared, True), prepared
 
 
 LIT = re.compile(r'^(not not |not )?(-?)([a-z_][A-Za-z0-9_]*)\((.*)\)$')
@@ -220,11 +267,15 @@ def texts_of(p, split):
 
 def compare(ctx, progs, split=False):
     idss = [atom_ids(p) for p in progs]
-    impl = ctx.impl().run([{'cmd': 'transform', 'texts': texts_of(p, split)} for p in progs], timeout=20)
-    mod = ctx.model().run([model_line(p, ids) for p, ids in zip(progs, idss)], timeout=20)
+    return compare_prepared(ctx, [(texts_of(p, split), model_line(p, ids), ids) for p, ids in zip(progs, idss)], split)
+
+
+def compare_prepared(ctx, prepared, split=False):
+    impl = ctx.impl().run([{'cmd': 'transform', 'texts': t} for t, _, _ in prepared], timeout=20)
+    mod = ctx.model().run([ml for _, ml, _ in prepared], timeout=20)
     out = []
-    for p, ids, a, m in zip(progs, idss, impl, mod):
-        rec = {'program': ' %%%% next input %%%% '.join(texts_of(p, split)) if split else lang.prog_txt(p), 'status': 'agree', 'lookahead_groups': 0, 'future_predicates': 0}
+    for (texts, _, ids), a, m in zip(prepared, impl, mod):
+        rec = {'program': ' %%%% next input %%%% '.join(texts), 'status': 'agree', 'lookahead_groups': 0, 'future_predicates': 0}
         out.append(rec)
         inv = {v: k for k, v in ids.items()}
         if m is None or m.startswith('error'):
